@@ -191,7 +191,7 @@ def run_case(case, env):
         def brute():
             return {w for w in words if acc(w)}
 
-        budget = 30_000_000 if kind in ('cfg', 'pda') else 20_000_000      # >= 10x the measured maximum of the repaired tree per kind
+        budget = 15_000_000 if kind in ('cfg', 'pda') else 10_000_000      # >= 10x the measured maximum of the repaired tree per kind
         if kind == 'pda':
             with ClosureSpy(s0, step['limit']) as spy:
                 r1 = call(env, enum, budget=budget)
